@@ -31,6 +31,13 @@ fn main() {
             ev["errors"] = json!(errs);
             sink.emit(&ev);
         },
+        "text" => fqv::scen_render::text(&mut sink, seed, thorough),
+        "svg" => fqv::scen_render::svg(&mut sink, seed, thorough),
+        "frames" => fqv::scen_render::frames(&mut sink, seed, thorough),
+        "fileio" => fqv::scen_file::fileio(&mut sink, seed, thorough, &arg(&args, "--replay-in", "")),
+        "raster" => fqv::scen_render::raster(&mut sink, seed, thorough),
+        #[cfg(feature = "hooks")]
+        "wasm" => fqv::scen_wasm::wasm(&mut sink, seed, thorough, &arg(&args, "--alphabet", ""), &arg(&args, "--replay-in", "")),
         #[cfg(feature = "hooks")]
         "versionget" => scen_hook::versionget(&mut sink),
         #[cfg(feature = "hooks")]
